@@ -175,7 +175,7 @@ def run(tier="quick", seed=0, replay=None):
         print(open(replay).read())
         return 1
     core.lean_stage(chk, "C12")
-    core.soft_bridge(chk, props=("GenMV",))
+    core.soft_bridge(chk, props=("GenMV", "GenMVCorollaries"))
     from harness import cover
     from harness import fingerprint
     fingerprint.direct(chk, ['ixai/utils/tracker/multi_value.py'])
